@@ -1,4 +1,5 @@
 import Mp.GoVal
+import Mp.Fold
 /-! Prototype: mpath's evaluator (post-repair semantics) over GoVal. Core-only. -/
 namespace Mp
 
@@ -14,9 +15,8 @@ deriving Inhabited
 inductive Prm | num (d : Dec) | str (s : Bytes) | bool (b : Bool)
 deriving Inhabited
 
-/-- strings.EqualFold restricted to ASCII folding (prototype; the real model takes the fold table) -/
-def foldB (c : UInt8) : UInt8 := if 65 ≤ c.toNat && c.toNat ≤ 90 then c + 32 else c
-def equalFold (a b : Bytes) : Bool := a.map foldB == b.map foldB
+/-- strings.EqualFold: rune by rune over unicode.SimpleFold orbits (tables regenerated from the running Go, Mp.Fold) -/
+def equalFold (a b : Bytes) : Bool := equalFoldU a b
 
 def bytesLt : Bytes → Bytes → Bool
   | [], [] => false
